@@ -17,7 +17,8 @@ RULE = ("APIs from harness/gv/props/flatapi.py: main package (proto-plus), optio
         "a paged and a long-running RPC, with and without add-iam-methods and mixins. "
         "For each RPC and each of the sync and asyncio clients: the request given as message, as dict and omitted (unary) or a "
         "stream of 0..3 messages (client-streaming), random request and reply valuations, 0..3 replies for server-streaming; "
-        "APIs with several services where a non-last one declares rpcs named like the IAM mixin methods (own or google.iam.v1 "
+        "APIs whose service config lists auto-populated UUID4 request fields (proto3 optional and plain), driven with the field unset, "
+        "set to a value and set to the empty string explicitly; APIs with several services where a non-last one declares rpcs named like the IAM mixin methods (own or google.iam.v1 "
         "types) under a service config listing that mixin, driven over gRPC (sync, asyncio) and REST; "
         "per service one unary and one server-streaming call with 6 MiB replies through a transport built with a channel factory. "
         "One case = (API, RPC, client, spelling, request bytes, reply bytes); distinct = distinct canonical JSON of these; "
@@ -154,6 +155,35 @@ def make_void_stream_api(r):
     svc.rpc("DropThing", rq.fqn, U.EMPTY)
     svc.rpc("WatchThing", rq.fqn, reply.fqn, ss=True)
     return api.request("transport=grpc"), None
+
+
+UUID4_RE = re.compile(r"[0-9a-f]{8}-[0-9a-f]{4}-4[0-9a-f]{3}-[89ab][0-9a-f]{3}-[0-9a-f]{12}")
+
+
+def make_uuid_api(r):
+    """unary RPCs whose service config (publishing.method_settings) lists auto-populated request fields (AIP-4235): a proto3
+    optional string (explicit presence: only an UNSET field may be filled in) and a plain string (the empty value may be filled in),
+    both with google.api.field_info.format = UUID4. C18 judges the population rule; here: the payload is the caller's request."""
+    api = A.FlatApi(r, reserved=False)
+    api.main.dep("google/api/field_info.proto")
+    reply = api.zoo(api.main, "Reply")
+    reqs = []
+    for nm in ("Create", "Make"):
+        m = api.main.message(nm + "ThingRequest")
+        m.field("name", 1, "string").field("request_id", 2, "string", optional=True, uuid4=True).field("plain_id", 3, "string", uuid4=True)
+        m.field("count", 4, "int32").field("tags", 5, "string", repeated=True).field("note", 6, "string", optional=True)
+        reqs.append(m)
+    svc = api.main.service(r.choice(["Library", "Catalog"]), host=api.host)
+    svc.rpc("CreateThing", reqs[0].fqn, reply.fqn, sigs=["name"])
+    svc.rpc("MakeThing", reqs[1].fqn, U.EMPTY)
+    svc.rpc("PlainThing", reqs[0].fqn, reply.fqn)
+    svc.rpc("WatchThing", reqs[0].fqn, reply.fqn, ss=True)
+    pkg, sn = api.pkg, svc.proto.name
+    yaml = {"type": "google.api.Service", "config_version": 3, "name": api.host,
+            "publishing": {"method_settings": [
+                {"selector": f"{pkg}.{sn}.CreateThing", "auto_populated_fields": ["request_id"]},
+                {"selector": f"{pkg}.{sn}.MakeThing", "auto_populated_fields": ["plain_id", "request_id"]}]}}
+    return api.request("transport=grpc"), yaml
 
 
 def make_iam_api(r, own_types, first=True):
@@ -553,6 +583,21 @@ class ApiRun:
                             sent = stream
                         calls.append(c)
                         meta[cid] = (i, j, variant, sp, sent, replies, consume_ok)
+                    auto = self.auto_fields(fp, s, m)
+                    for state in (("unset", "value", "empty") if auto and not m.client_streaming else ()):
+                        rm2 = type(reqmsg)()
+                        rm2.CopyFrom(reqmsg)
+                        for fn, _ in auto:
+                            rm2.ClearField(fn)
+                            if state == "value":
+                                setattr(rm2, fn, "caller-chosen-" + fn)
+                            elif state == "empty":
+                                setattr(rm2, fn, "")          # explicit presence: set, and empty
+                        for sp in ("message", "dict"):
+                            cid = f"{i}/{j}/{variant}/{sp}+{state}"
+                            calls.append(dict(base, id=cid, replies=[U.b64(x) for x in replies],
+                                              request={"mode": sp, "cls": self.cls_path(vm, "." + rq), "b64": U.b64(rm2)}))
+                            meta[cid] = (i, j, variant, sp, [rm2], replies, consume_ok, "auto-populated field " + state)
             # replies beyond gRPC's 4 MiB default, through a transport that builds its channel with a caller-supplied channel
             # FACTORY (channel=<callable>): the factory must be handed the unlimited message-size options
             BIG = 6 * 1024 * 1024
@@ -616,9 +661,11 @@ class ApiRun:
             if mt[3] == "rest":
                 self.judge_rest(cid, o, mt)
                 continue
-            i, j, variant, sp, sent, replies, consume_ok = mt
+            i, j, variant, sp, sent, replies, consume_ok = mt[:7]
+            state = mt[7] if len(mt) > 7 else None
             fp, s = self.svcs[i]
             m = s.method[j]
+            auto = self.auto_fields(fp, s, m) if not m.client_streaming else []
             sv, me = self.sname(i), self.live(i, j)
             want_path = f"/{fp.package}.{s.name}/{m.name}"
             case = dict(self.case, service=s.name, method=m.name, variant=variant, spelling=sp,
@@ -629,6 +676,7 @@ class ApiRun:
                      feature=[variant, "spelling=" + sp, "arity=" + ({"": "unary", "client": "client-streaming", "server": "server-streaming",
                                                                        "clientserver": "bidi"}[kind]),
                               "void" if m.output_type == U.EMPTY else "non-void",
+                              *([state] if state else []), *(["rpc-with-auto-populated-fields"] if auto else []),
                               "request-" + ("own-package" if self.idx.package_of(m.input_type) == fp.package else
                                             "proto-plus-subpackage" if self.idx.proto_plus_pkg(self.idx.package_of(m.input_type)) else "pb2-dependency"),
                               "response-" + ("pb2" if not self.idx.proto_plus_pkg(self.idx.package_of(m.output_type)) else "proto-plus")]
@@ -677,6 +725,8 @@ class ApiRun:
             # coercion: model's exec on the opaque request
             if not m.client_streaming and o["ok"] and npath is not None:
                 got = self.dyn.parse("." + m.input_type[1:], o["calls"][0]["requests"][0]) if nreq == 1 else None
+                if got is not None and auto:
+                    got, _ = self.strip_auto(got, sent[0], auto)      # the population itself is C18's; the model here has none
                 if got is not None:
                     in_pp = self.idx.proto_plus_pkg(self.idx.package_of(m.input_type))
 
@@ -708,11 +758,18 @@ class ApiRun:
                 ctx.violation(f"{s.name}.{m.name} ({variant}, {sp}): the server received {nreq} request messages, the caller gave {len(sent)}", case, known)
                 continue
             got = [self.dyn.parse(m.input_type, b) for b in o["calls"][0]["requests"]]
+            if auto and len(got) == 1:
+                g1, problem = self.strip_auto(got[0], sent[0], auto)
+                if problem:
+                    ctx.violation(f"{s.name}.{m.name} ({variant}, {sp}{', ' + state if state else ''}): {problem}", case, known)
+                    continue
+                got = [g1]
             if got != sent and sp == "message" and self.idx.package_of(m.input_type) != fp.package \
                     and self.idx.proto_plus_pkg(self.idx.package_of(m.input_type)) and pp_falsy(self.idx, sent[0]) and got == [self.dyn.new(m.input_type[1:])]:
                 known = known or "stubs.cross_pkg_proto_plus_falsy_request"
             if got != sent:
-                ctx.violation(f"{s.name}.{m.name} ({variant}, {sp}): payload does not decode to the caller's request", dict(case, got_b64=[U.b64(x) for x in got]), known)
+                ctx.violation(f"{s.name}.{m.name} ({variant}, {sp}{', ' + state if state else ''}): payload does not decode to the caller's request",
+                              dict(case, got_b64=[U.b64(x) for x in got]), known)
                 continue
             if not consume_ok:
                 continue
@@ -736,6 +793,30 @@ class ApiRun:
             if back != replies:
                 ctx.violation(f"{s.name}.{m.name} ({variant}, {sp}): returned/streamed value differs from what the server sent "
                               f"({len(back)} vs {len(replies)} messages)", dict(case, returned_b64=[U.b64(x) for x in back]), known)
+
+    def auto_fields(self, fp, s, m):
+        """[(field name, has explicit presence)] the service config asks to auto-populate for this RPC"""
+        out = []
+        for ms in ((self.yaml or {}).get("publishing") or {}).get("method_settings", []):
+            if ms.get("selector") == f"{fp.package}.{s.name}.{m.name}":
+                for fn in ms.get("auto_populated_fields", []):
+                    f = next(x for x in self.idx.msgs[m.input_type][0].field if x.name == fn)
+                    out.append((fn, bool(f.proto3_optional)))
+        return out
+
+    @staticmethod
+    def strip_auto(got, sent, auto):
+        """AIP-4235: a field the caller left unset (explicit presence) / empty (no presence) may arrive holding any UUID4.
+        -> (the request with such legitimately filled-in fields put back to the caller's state, problem text or None)"""
+        g = type(got)()
+        g.CopyFrom(got)
+        for fn, presence in auto:
+            caller_left_it = (not sent.HasField(fn)) if presence else (getattr(sent, fn) == "")
+            if caller_left_it and getattr(g, fn) != "":
+                if not UUID4_RE.fullmatch(getattr(g, fn)):
+                    return g, f"auto-populated field {fn} arrived as {getattr(g, fn)!r}, not a UUID4"
+                g.ClearField(fn)
+        return g, None
 
     def rest_rule(self, m):
         """(path variable, its pattern, uri) of a POST rule with the whole request as body and one top-level string path variable,
@@ -980,6 +1061,8 @@ def write_corpus():
     items.append(("w_iam_named_rpcs_iam_types", req, 8, y))
     req, y = make_void_stream_api(env.rng("C03-w", 9))
     items.append(("w_void_streams", req, 9, y, VOID_STREAM))
+    req, y = make_uuid_api(env.rng("C03-w", 10))
+    items.append(("w_auto_populated_uuid4", req, 10, y))
     for it in items:
         tag, req, ri, y = it[:4]
         with open(os.path.join(CORPUS, tag + ".json"), "w") as f:
@@ -994,7 +1077,7 @@ def plan(ctx):
         if c.get("runs_when_registered") and not registered(c["runs_when_registered"]):
             continue
         jobs.append((c["tag"], apigen.req_from_b64(c["request_b64"]), c.get("rindex", 0), c.get("service_yaml")))
-    ctx.oblige("corpus: the 9 witness APIs of corpus/C03 are present", len(jobs) >= 9, f"{len(jobs)} found", "build")
+    ctx.oblige("corpus: the 10 always-on witness APIs of corpus/C03 are present", len(jobs) >= 10, f"{len(jobs)} found", "build")
     n = ctx.n(7, 90)
     i = made = 0
     while made < n and i < 4 * n:
@@ -1004,6 +1087,8 @@ def plan(ctx):
                 req, y = make_iam_api(r, own_types=r.random() < 0.5, first=r.random() < 0.7)
             elif i % 8 == 2 and registered(VOID_STREAM):
                 req, y = make_void_stream_api(r)
+            elif i % 8 == 1:
+                req, y = make_uuid_api(r)
             else:
                 req, y = make_api(r, ["same", "dep", "sub"][i % 3], add_iam=(i % 7 == 5), mixins=(i % 5 == 4))
             jobs.append((f"a{i}", req, i, y))
